@@ -100,7 +100,8 @@ def pipeline(text: str, path: str) -> tuple[str, BaseException | None, bool]:
 			pass
 
 
-def judge(acc: Acc, case: dict) -> None:
+def judge(acc: Acc, case: dict) -> str | None:
+	"""-> name of the Errors.* class the pipeline ended with (None: no error / not an application error)"""
 	from rogw.tranp.errors import Errors
 	from rogw.tranp.view.error_render import ErrorRender
 	text, path = case['text'], case['path']
@@ -110,7 +111,7 @@ def judge(acc: Acc, case: dict) -> None:
 	acc.case(sig_of((text, path)), {'path': path, 'kind': kind, 'text': text[:160], 'outcome': stage + ('' if exc is None else ':' + type(exc).__name__)} if stage != 'ok' and len(text) < 200 else None, nontrivial)
 	if exc is None:
 		acc.see('outcome', f'{path}: ok')
-		return
+		return None
 	if isinstance(exc, BudgetExceeded):
 		# replay once with 5x the budget
 		global STEP_LIMIT
@@ -140,13 +141,20 @@ def judge(acc: Acc, case: dict) -> None:
 	elif parser_refused and not isinstance(exc, Errors.Syntax):
 		acc.violation('unparsable-not-syntax-error', f'{path}/{stage}: the parser refused the text but the error is {name}, not Errors.Syntax: {text[:300]!r}', case)
 	# the error rendering itself never fails
+	cwd = os.getcwd()
 	try:
+		if path == 'disk':
+			# the renderer quotes the offending line from '<module path>.py' relative to the working directory (as in a real command-line run)
+			os.chdir(state()['src_dir'])
 		rendered = str(ErrorRender(exc))
-		acc.see('error_render', 'ok')
+		acc.see('error_render', 'ok' + (' (with source quotation)' if 'via Node:' in rendered else ''))
 		if name not in rendered:
 			acc.violation('error-render-incomplete', f'rendering of {name} does not name the error class: {rendered[-300:]!r}', case)
 	except BaseException as e2:  # noqa
 		acc.violation('error-render-raises', f'str(ErrorRender({name})) raised {type(e2).__name__}: {e2} for input {text[:300]!r}', case)
+	finally:
+		os.chdir(cwd)
+	return name if isinstance(exc, Errors.Error) else None
 
 
 def interactive_case(acc: Acc, bad: str, good: str, case: dict) -> None:
@@ -173,6 +181,11 @@ def interactive_case(acc: Acc, bad: str, good: str, case: dict) -> None:
 		acc.violation('interactive/good-submission-not-transpiled', f'after a refused submission the next one produced no result; output tail {out[-500:]!r}', case)
 
 
+def feedable(text: str) -> bool:
+	"""can be typed into the interactive prompt as one submission: printable one-byte characters, no line that would end the block early"""
+	return 0 < len(text) < 600 and all(c == '\n' or c == '\t' or 32 <= ord(c) < 127 for c in text) and 'exit' not in text.split('\n')
+
+
 GOOD = 'def f(a: int) -> int:\n\treturn a + 1\n'
 
 
@@ -189,6 +202,7 @@ def shard(ctx: Ctx, acc: Acc) -> None:
 		n = N_INPUTS[ctx.tier]
 		alphabet = ['def', 'class', 'if', 'else', 'elif', 'for', 'in', 'while', 'return', 'lambda', 'not', 'and', 'or', 'is', 'None', 'True', 'x', 'y', 'f', 'int', 'str', 'self', '1', '2.5', "'s'", '"t"', '(', ')', '[', ']', '{', '}', ':', ',', '.', '=', '+', '-', '*', '/', '%', '==', '<', '->', '@', '...', '**', '|', '&', 'try', 'except', 'as', 'with', 'pass', 'raise', 'from', 'import', 'yield', 'assert', 'del', 'break', '#c']
 		seeds: list[str] = []
+		fed_classes: set[str] = set()
 		for i in range(n):
 			if not ctx.mine(i):
 				continue
@@ -222,11 +236,15 @@ def shard(ctx: Ctx, acc: Acc) -> None:
 				kind = 'ill-typed+' + k2
 			text = text[:4096]
 			try:
-				judge(acc, {'text': text, 'path': 'memory', 'kind': kind})
+				err = judge(acc, {'text': text, 'path': 'memory', 'kind': kind})
 				acc.see('input_kind', kind)
-				if i % 4 == 0:
+				if i % 4 == 0 or kind.startswith('ill-typed'):
 					judge(acc, {'text': text, 'path': 'disk', 'kind': kind})
-				if i % 997 == 0 and 'valid' not in kind:
+				# "reports it and keeps running": the real interactive process is fed the first input of every error class this shard meets
+				if (err is not None and err not in fed_classes and len(fed_classes) < 8 and feedable(text)) or (i % 997 == 0 and 'valid' not in kind):
+					if err is not None:
+						fed_classes.add(err)
+					acc.see('interactive_error_class', err or 'periodic')
 					interactive_case(acc, text, GOOD, {'text': text, 'path': 'interactive', 'kind': kind})
 			except (KeyboardInterrupt, SystemExit):
 				raise
